@@ -36,6 +36,7 @@ type MemOp struct {
 	L     *Src   `json:"l,omitempty"`
 	Seg   int    `json:"seg,omitempty"`
 	DOff  uint32 `json:"doff,omitempty"` // load_store: static offset of the store
+	VC    *uint64 `json:"vc,omitempty"`  // store: the value is this constant (bits), not x
 	op    []byte
 	cons  *consumer
 }
@@ -571,7 +572,15 @@ func (g *ggen) mainOp(p *Prog) MemOp {
 	case k < 60: // plain stores
 		st := plainStores[g.r.Intn(len(plainStores))]
 		off := g.off()
-		return MemOp{Fam: "store", Name: st.name, N: st.n, Off: off, Base: g.baseSrc(true, p, st.n, off), Hole: st.typ, op: st.op}
+		m := MemOp{Fam: "store", Name: st.name, N: st.n, Off: off, Base: g.baseSrc(true, p, st.n, off), Hole: st.typ, op: st.op}
+		if g.r.Intn(4) == 0 { // the value is an immediate (a back end may fold it into the store)
+			v := g.val()
+			if st.typ == "i32" || st.typ == "f32" {
+				v &= 0xffffffff
+			}
+			m.VC = &v
+		}
+		return m
 	case k < 63: // v128.store
 		off := g.off()
 		return MemOp{Fam: "vstore", Name: "v128.store", N: 16, Off: off, Base: g.baseSrc(true, p, 16, off), Hole: "v128", op: simd(11)}
@@ -582,6 +591,13 @@ func (g *ggen) mainOp(p *Prog) MemOp {
 		m := MemOp{Fam: "load_store", Name: ld.name + ";" + plainStores[i].name, N: ld.n, Off: off, Base: g.baseSrc(false, p, ld.n, off), Hole: ld.hole, op: ld.op}
 		m.D = srcP(Src{K: "b"})
 		m.DOff = uint32(g.r.Intn(32))
+		if i < 2 && g.r.Bool() { // load; op x; store — in place (the x86 `op [mem], reg` shape) or elsewhere
+			m.Rmw = []string{"add", "sub", "and", "or", "xor"}[g.r.Intn(5)]
+			m.Name = ld.name + ";" + ld.hole + "." + m.Rmw + ";" + plainStores[i].name
+			if g.r.Bool() {
+				m.D, m.DOff = srcP(m.Base), m.Off
+			}
+		}
 		return m
 	case k < 74: // lane loads and stores
 		w := g.r.Intn(4)
@@ -772,12 +788,34 @@ func opCode(m *MemOp, hole []byte) []byte {
 		}
 		return split(c.Cat(m.cons.pre, ld, m.cons.post), m.cons.res)
 	case "store":
-		return c.Cat(addr, valueOf(m.Hole), m.op, memarg(m, false))
+		v := valueOf(m.Hole)
+		if m.VC != nil {
+			switch m.Hole {
+			case "i32":
+				v = c.I32Const(int32(uint32(*m.VC)))
+			case "i64":
+				v = c.I64Const(int64(*m.VC))
+			case "f32":
+				v = []byte{0x43, byte(*m.VC), byte(*m.VC >> 8), byte(*m.VC >> 16), byte(*m.VC >> 24)}
+			default:
+				v = []byte{0x44, byte(*m.VC), byte(*m.VC >> 8), byte(*m.VC >> 16), byte(*m.VC >> 24), byte(*m.VC >> 32), byte(*m.VC >> 40), byte(*m.VC >> 48), byte(*m.VC >> 56)}
+			}
+		}
+		return c.Cat(addr, v, m.op, memarg(m, false))
 	case "vstore":
 		return c.Cat(addr, xv, m.op, memarg(m, false))
 	case "load_store":
 		st := map[string]byte{"i32": 0x36, "i64": 0x37, "f32": 0x38, "f64": 0x39}[m.Hole]
-		return c.Cat(srcCode(*m.D), addr, m.op, memarg(m, false), []byte{st}, c.MemArg(0, m.DOff))
+		var alu []byte
+		if m.Rmw != "" {
+			o := map[string]byte{"add": 0, "sub": 1, "and": 7, "or": 8, "xor": 9}[m.Rmw]
+			if m.Hole == "i32" {
+				alu = c.Cat(x32, []byte{0x6a + o})
+			} else {
+				alu = c.Cat(x64, []byte{0x7c + o})
+			}
+		}
+		return c.Cat(srcCode(*m.D), addr, m.op, memarg(m, false), alu, []byte{st}, c.MemArg(0, m.DOff))
 	case "load_lane":
 		return split(c.Cat(addr, xv, m.op, memarg(m, false), []byte{byte(m.Lane)}), []byte{c.V128})
 	case "store_lane":
@@ -1067,7 +1105,7 @@ func min64(a, b uint64) uint64 {
 func (g *ggen) newProg(id int, kind string) *Prog {
 	p := &Prog{ID: id, Kind: kind, Threads: g.threads}
 	p.Min = uint32(1 + g.r.Intn(4))
-	p.Max = p.Min + uint32(g.r.Intn(3))
+	p.Max = p.Min + uint32(g.r.Intn(5))
 	if g.threads && g.r.Intn(6) == 0 {
 		p.Shared = true
 	}
